@@ -48,6 +48,11 @@ Section Poly.
     let b := (sum_y - m * sum_x) / n in
     (m, b).
 
+  (* Line1::try_from_points: the line (m, b) through two samples, refused when the abscissae are within 1e-12 *)
+  Definition line_two_points (x0 y0 x1 y1 : num) : res (num * num) :=
+    if nabs (x1 - x0) <? nlit 1 (-12) then Err
+    else let m := (y1 - y0) / (x1 - x0) in Ok (m, y0 - m * x0).
+
   (* Circle2::from_3_points *)
   Definition circle3 (p0 p1 p2 : V2) : res (num * num * num) :=
     let temp := fst p1 * fst p1 + snd p1 * snd p1 in
